@@ -114,8 +114,11 @@ func (c *Authority) VerifyPartialCert(cert hotstuff.PartialCert) error {
 
 // VerifyQuorumCert verifies a quorum certificate.
 func (c *Authority) VerifyQuorumCert(qc hotstuff.QuorumCert) error {
-	// genesis QC is always valid.
+	// genesis QC is always valid, provided it is labelled with the genesis view.
 	if qc.BlockHash() == hotstuff.GetGenesis().Hash() {
+		if qc.View() != hotstuff.GetGenesis().View() {
+			return fmt.Errorf("genesis quorum certificate has view %d", qc.View())
+		}
 		return nil
 	}
 
@@ -133,6 +136,10 @@ func (c *Authority) VerifyQuorumCert(qc hotstuff.QuorumCert) error {
 	block, ok := c.blockchain.Get(qc.BlockHash())
 	if !ok {
 		return fmt.Errorf("block not found: %v", qc.BlockHash())
+	}
+	// the signatures cover the block (and thereby its view), not the certificate's view field.
+	if block.View() != qc.View() {
+		return fmt.Errorf("quorum certificate view %d does not match the view %d of its block", qc.View(), block.View())
 	}
 	return c.Verify(qc.Signature(), block.ToBytes())
 }
